@@ -5,7 +5,9 @@
 //	              JoinType classification predicates — all dumped by RUNNING the freshly compiled
 //	              sql/memo + sql/plan code (overlay accessors memo.Verif*); plus, with go/ast: the hint
 //	              names of select_hints.go, the iterator dispatch order of rowexec.buildJoinNode, the
-//	              number of writes to edge.nullRejectedRels and the uses of JoinTypeGroupBy
+//	              number of writes to edge.nullRejectedRels and the uses of JoinTypeGroupBy; plus the
+//	              facts of the keq stream (keqfacts.go): collation weights of the key alphabet,
+//	              HashLookup.GetHashKey vs. Equals on typed values
 //	              → Gms/Generated/C01.lean
 //	c01 run       (a) checkProperty unit correspondence (real memo.checkProperty vs. the Lean model);
 //	              (b) corpus: one witness per known finding, run under the configuration that shows it;
@@ -19,7 +21,13 @@
 //	              LOOKUP / INNER / SEMI / ANTI hints, LEFT_DEEP, NO_MERGE_JOIN, seeded random costers);
 //	              every DISTINCT analyzed plan is a case: result multiset vs. the Lean reference semantics
 //	              (for a plain two-table merge join plan the Lean driver also runs the merge-join model),
-//	              plus the model-free pairwise oracle (all plans of one query agree)
+//	              plus the model-free pairwise oracle (all plans of one query agree);
+//	              (d) stream keq (keq.go): join keys whose equality is not byte equality — text under
+//	              case/accent-insensitive collations, numeric keys of different column types, one- and
+//	              two-column keys, all index layouts, joins and [NOT] IN / [NOT] EXISTS — against the
+//	              reference semantics on the NORMAL FORMS of the keys (Gms/Model/PhysKeys.lean);
+//	              (e) stream mres (mres.go): LEFT / INNER joins with a residual ON predicate over blocks
+//	              of equal keys, both sides indexed (merge / lookup / hash / nested loop)
 //	c01 sql       run the statements on stdin on a fresh engine and print result + plan (manual replay)
 package main
 
@@ -157,7 +165,8 @@ func leanBool(b bool) string {
 }
 
 func extract(a hx.ExtractArgs) error {
-	lf := hx.NewLeanFile("Gms.Generated.C01", "sql/memo/join_order_builder.go", "sql/memo/select_hints.go", "sql/plan/join.go", "sql/rowexec/rel.go")
+	lf := hx.NewLeanFile("Gms.Generated.C01", "sql/memo/join_order_builder.go", "sql/memo/select_hints.go", "sql/plan/join.go", "sql/rowexec/rel.go",
+		"sql/plan/hash_lookup.go", "sql/collations.go")
 
 	// (1) the three property tables and the entry bit values, from the running code
 	assoc, lasscom, rasscom := memo.VerifJoinPropTables()
@@ -340,6 +349,11 @@ func extract(a hx.ExtractArgs) error {
 	lf.DefNat("nullRejectedRelsWrites", uint64(writes))
 	lf.Comment("occurrences of the identifier JoinTypeGroupBy (declaration + getOpIdx case only: the kind is never constructed)")
 	lf.DefNat("groupByJoinMentions", uint64(groupUses))
+
+	// (6) keq stream: collation weights of the key alphabet, GetHashKey vs Equals on typed values
+	if err := keqFacts(lf); err != nil {
+		return err
+	}
 	return lf.Write(a.Out)
 }
 
@@ -881,8 +895,27 @@ func corpus() []witness {
 		{Tys: ii, NotNull: []bool{false, false}, Extra: ", KEY k0 (c0)", Rows: [][]sqlgen.Value{iv(nil, -2), iv(2, 1), iv(nil, nil), iv(3, -2)}},
 	}}
 	q4 := sqlgen.Join("inner", sqlgen.Cmp("nseq", c(1), c(4)), sqlgen.Join("inner", sqlgen.Cmp("nseq", c(1), c(2)), sqlgen.TableQ(0), sqlgen.TableQ(0)), sqlgen.TableQ(0))
+	// (5) not_in_as_left_outer_join: both key columns indexed, so the default plan of the NOT IN anti join
+	// is Filter(IS NULL, LeftOuterMergeJoin) (and LeftOuterLookupJoin under LOOKUP_JOIN): the NULL-keyed
+	// left row and the unmatched row 9 come out although the subquery has a NULL.
+	db5 := &sqlgen.Db{Tables: []*sqlgen.Table{
+		{Tys: ii, NotNull: []bool{false, false}, Extra: ", KEY k1 (c1)", Rows: [][]sqlgen.Value{iv(1, 1), iv(2, 1), iv(3, 2), iv(4, nil), iv(5, 3), iv(6, 9)}},
+		{Tys: ii, NotNull: []bool{false, false}, Extra: ", KEY k1 (c1)", Rows: [][]sqlgen.Value{iv(1, 1), iv(2, 2), iv(3, 2), iv(4, nil), iv(5, 3), iv(6, 1)}},
+	}}
+	n5 := sqlgen.Not(sqlgen.InSub(c(1), sqlgen.Project([]*sqlgen.Expr{c(1)}, sqlgen.TableQ(1))))
+	n5.Alt = true
+	q5 := sqlgen.Filter(n5, sqlgen.TableQ(0))
+	// (6) lookup_join_nullsafe_for_all_key_parts: ON s1.c1 <=> s2.c1 AND s1.c3 = s2.c3 as a lookup on the
+	// index of c3: the row whose c3 is NULL finds itself.
+	db6 := &sqlgen.Db{Tables: []*sqlgen.Table{
+		{Tys: []sqlgen.Ty{sqlgen.TInt, sqlgen.TInt, sqlgen.TInt, sqlgen.TInt}, NotNull: []bool{false, false, false, false}, Extra: ", KEY k1 (c1), KEY k3 (c3)",
+			Rows: [][]sqlgen.Value{iv(1, 7, 2, nil), iv(2, 7, 1, 5), iv(3, 8, 2, 6), iv(4, nil, 2, 6)}},
+	}}
+	q6 := sqlgen.Join("inner", sqlgen.Bin("and", sqlgen.Cmp("nseq", c(1), c(5)), sqlgen.Cmp("eq", c(3), c(7))), sqlgen.TableQ(0), sqlgen.TableQ(0))
 	iiii := []sqlgen.Ty{sqlgen.TInt, sqlgen.TInt, sqlgen.TInt, sqlgen.TInt}
 	return []witness{
+		{db: db6, qc: qcase{q: q6, tys: append(append([]sqlgen.Ty{}, iiii...), iiii...), kind: "witness"}, cfgs: []config{{name: "witness:lookup", hint: "LOOKUP_JOIN(s1,s2)"}}, repeat: 1},
+		{db: db5, qc: qcase{q: q5, tys: ii, kind: "witness"}, cfgs: []config{{name: "witness:default"}}, repeat: 1},
 		{db: db3, qc: qcase{q: q3, tys: iiii, kind: "witness"}, cfgs: []config{{name: "witness:merge", hint: "MERGE_JOIN(s1,s2)"}}, repeat: 1},
 		{db: db4, qc: qcase{q: q4, tys: append(append([]sqlgen.Ty{}, iiii...), ii...), kind: "witness"},
 			cfgs: []config{{name: "witness:order", hint: "JOIN_ORDER(s2,s3,s1) MERGE_JOIN(s2,s3)"}}, repeat: 1},
@@ -1019,7 +1052,10 @@ func run(a hx.RunArgs) error {
 	out.Rule = "checkProperty unit cases (all entry bit sets x null-rejection sets); engine level: a generated database (2-4 tables, <=3 columns, <=6 rows, NULLs, " +
 		"duplicates, PK / UNIQUE / secondary / composite indexes) and a join query (2-4 way inner/left/cross chain or [NOT] EXISTS / [NOT] IN subquery, optional WHERE / " +
 		"GROUP BY / projection) run under up to ~30 plan configurations (JOIN_ORDER, HASH/MERGE/LOOKUP/INNER/SEMI/ANTI hints, LEFT_DEEP, NO_MERGE_JOIN, seeded random costers); " +
-		"one case per DISTINCT analyzed plan; a case is non-trivial when its plan differs from the default plan of the query and the result is non-empty"
+		"one case per DISTINCT analyzed plan; a case is non-trivial when its plan differs from the default plan of the query and the result is non-empty. " +
+		"Stream keq: 2-3 tables (id, key, x[, key2]) whose keys are text under utf8mb4_0900_ai_ci / utf8mb4_general_ci (control: 0900_bin) spelled in several cases/accents, or " +
+		"INT / BIGINT UNSIGNED / DECIMAL(8,1) / DECIMAL(8,3) / DOUBLE holding the same numbers; index layouts none / KEY(k) / KEY(k,x) / PK+KEY(k) / KEY(k,k2); joins on the key(s) " +
+		"with optional residual, [NOT] IN / [NOT] EXISTS; int columns selected. Stream mres: two tables (id, key in {0,1,2,NULL}, x), both keys indexed, LEFT/INNER JOIN ON key equality AND a residual over x / id"
 	r := hx.NewRand(a.Seed).Fork()
 
 	unitCases(out)
@@ -1136,6 +1172,9 @@ func run(a hx.RunArgs) error {
 		text := w.sql
 		if text == "" {
 			text = (&sqlgen.Printer{Db: w.db, AllowMixedJoinChains: true}).SQL(w.qc.q)
+			if whereNotIn(w.qc.q) {
+				text = unaliasIn(text) // witness (5): let the analyzer unnest the NOT IN
+			}
 		}
 		for i := 0; i < w.repeat; i++ {
 			runQuery(e, ctx, dbS, setupS, w.qc, text, w.cfgs)
@@ -1308,6 +1347,66 @@ func sharedNullsafe(q *sqlgen.Query) bool {
 	return false
 }
 
+func hasExactOp(ops []string, op string) bool {
+	for _, o := range ops {
+		if o == op {
+			return true
+		}
+	}
+	return false
+}
+
+func predHasNotIn(e *sqlgen.Expr) bool {
+	switch {
+	case e.Op == "not" && e.Args[0].Op == "insub":
+		return true
+	case e.Op == "and":
+		return predHasNotIn(e.Args[0]) || predHasNotIn(e.Args[1])
+	}
+	return false
+}
+
+// whereNotIn mirrors Gms.PhysRegions.whereNotIn.
+func whereNotIn(q *sqlgen.Query) bool {
+	switch q.Op {
+	case "filter":
+		return predHasNotIn(q.P) || whereNotIn(q.L)
+	case "project", "group", "distinct":
+		return whereNotIn(q.L)
+	case "join":
+		return whereNotIn(q.L) || whereNotIn(q.R)
+	}
+	return false
+}
+
+func colCmpConj(op string, e *sqlgen.Expr) int {
+	switch {
+	case e.Op == "and":
+		return colCmpConj(op, e.Args[0]) + colCmpConj(op, e.Args[1])
+	case e.Op == "cmp" && e.Sub == op && e.Args[0].Op == "col" && e.Args[1].Op == "col" && e.Args[0].D == 0 && e.Args[1].D == 0:
+		return 1
+	}
+	return 0
+}
+
+// mixedNullsafeOn mirrors Gms.PhysRegions.mixedNullsafeOn.
+func mixedNullsafeOn(q *sqlgen.Query) bool {
+	if q.Op != "join" {
+		return false
+	}
+	return colCmpConj("nseq", q.P) >= 1 && colCmpConj("eq", q.P) >= 1 || mixedNullsafeOn(q.L) || mixedNullsafeOn(q.R)
+}
+
+func hasLookupOp(ops []string) bool {
+	for _, o := range ops {
+		switch o {
+		case "LookupJoin", "LeftOuterLookupJoin", "SemiLookupJoin", "AntiLookupJoin", "AntiLookupIncludingNulls":
+			return true
+		}
+	}
+	return false
+}
+
 func region(qc qcase, ops []string, hasNull bool) string {
 	if multiConjInnerAboveLeft(joinTree(qc.q)) && outerAboveInner(ops) {
 		return "inner_conjunct_lost_at_outer_join"
@@ -1324,6 +1423,12 @@ func region(qc qcase, ops []string, hasNull bool) string {
 				return "hash_exclude_nulls_probe_miss"
 			}
 		}
+	}
+	if whereNotIn(qc.q) && hasNull && (hasExactOp(ops, "LeftOuterMergeJoin") || hasExactOp(ops, "LeftOuterLookupJoin")) {
+		return "not_in_as_left_outer_join"
+	}
+	if mixedNullsafeOn(joinTree(qc.q)) && hasNull && hasLookupOp(ops) {
+		return "lookup_join_nullsafe_for_all_key_parts"
 	}
 	if qc.keq != nil {
 		return keqRegion(qc, ops)
